@@ -9,6 +9,7 @@ import (
 	"bytes"
 	"fmt"
 	"strconv"
+	"strings"
 )
 
 type foreignBuilder struct {
@@ -218,7 +219,26 @@ func hostileStream(ch *Choices) ([]byte, string) {
 func hostileStreamN(ch *Choices) ([]byte, string, int) {
 	var b bytes.Buffer
 	f := &foreignBuilder{ch: ch, Features: map[string]int{}}
-	switch ch.Intn(16, "hostile.kind") {
+	switch ch.Intn(17, "hostile.kind") {
+	case 16:
+		// a typed list whose type NAME is long and structured: hundreds to tens of thousands of '[' in front
+		// of an element name (a multi-dimensional array type nobody registered)
+		depth := ch.Range(100, 30000, "arrayname.depth")
+		base := []string{"int", "string", "long", "double", "K00", "Labels", "com.example.verif.Named", "x"}[ch.Intn(8, "arrayname.base")]
+		name := strings.Repeat("[", depth) + base
+		if ch.Intn(2, "arrayname.form") == 0 {
+			b.WriteByte(0x70) // empty fixed-length typed list
+		} else {
+			b.WriteByte(0x55) // variable-length typed list
+		}
+		b.WriteByte('S')
+		b.WriteByte(byte(len(name) >> 8))
+		b.WriteByte(byte(len(name)))
+		b.WriteString(name)
+		if b.Bytes()[0] == 0x55 {
+			b.WriteByte('Z')
+		}
+		return b.Bytes(), fmt.Sprintf("typed list whose type name is %d x '[' + %q", depth, base), 1
 	case 15:
 		// a class definition that really carries thousands of field names the Go type does not have,
 		// then thousands of short instances of it (work per instance x work per field name)
